@@ -12,7 +12,7 @@ RULE = ('every productive grammar of the BNF/EBNF families (single-character nam
         'UnexpectedInput subclass (CYK: ParseError) raised at the first token/character after the longest viable prefix '
         '(prefix-viability fix-point over the CFG; reference LALR automaton for grammars with conflicts), UnexpectedEOF / '
         '$END with the last token\'s coordinates when the whole input is viable, and the continuation sets must hold in the '
-        'stated directions; plus a bracket-and-indentation grammar behind the Indenter post-lexer (every text of <= 3 lines): UnexpectedInput at the first non-viable token of the reference token stream, or the post-lexer\'s documented DedentError. Non-trivial = rejected input with at least one token before the error; distinct by construction')
+        'stated directions; plus a bracket-and-indentation grammar behind the Indenter post-lexer (every text of <= 3 lines): UnexpectedInput at the first non-viable token of the reference token stream, or the post-lexer\'s documented DedentError; and a keyword/identifier grammar (multi-character terminals, keywords folded into the identifier regexp) x 3 engines x every input over 6 characters: class, position and continuation sets against the reference lexer (restricted by the reference automaton for lexer=contextual) + viability fix-point. Non-trivial = rejected input with at least one token before the error; distinct by construction')
 ASSUMPTIONS = ['prefix viability computed by refsem.Viable (productive grammars only; others skipped)',
                'terminals of the family are single characters, so tokens = characters and tokenisation is unique',
                'LALR: viability is relative to the shift-preferring reference automaton (reflalr) when the grammar has conflicts']
@@ -385,6 +385,140 @@ def work_indent(item, only=None):
     return res
 
 
+# --------------------------------------------------------------------------------------------------- keyword / identifier box
+
+KW_G = 'start: IF NAME | NAME EQ NAME | IF NAME EQ NAME THEN NAME\nIF: "if"\nTHEN: "fi"\nEQ: "="\nNAME: /[a-z]+/\nWS: " "\n%ignore WS\n'
+KW_ALPHA = 'if a=9'
+KW_ENGINES = (('lalr', 'contextual'), ('lalr', 'basic'), ('earley', 'basic'))
+KW_TNAMES = ('IF', 'THEN', 'EQ', 'NAME')
+
+
+class _Kw:
+    g = ref = parsers = tdefs = None
+
+    @classmethod
+    def setup(cls):
+        if cls.g is None:
+            from lark import Lark
+            from ..gram import Rule, Grammar
+            from ..reflex import TDef, INF
+            T = lambda n: ('tok', n)
+            rules = [Rule('start', '', None, (((T('IF'), T('NAME')), None), ((T('NAME'), T('EQ'), T('NAME')), None),
+                                              ((T('IF'), T('NAME'), T('EQ'), T('NAME'), T('THEN'), T('NAME')), None)))]
+            cls.g = Grammar(rules, [Term(n, (('str', n, ''),)) for n in KW_TNAMES])
+            cls.ref = reflalr.RefLALR(cls.g)
+            cls.tdefs = [TDef('IF', 'str', 'if'), TDef('THEN', 'str', 'fi'), TDef('EQ', 'str', '='), TDef('NAME', 're', '[a-z]+', '', 0, INF), TDef('WS', 'str', ' ')]
+            cls.parsers = {(pa, lx): Lark(KW_G, parser=pa, lexer=lx) for pa, lx in KW_ENGINES}
+
+
+def kw_expect(w, lexer):
+    """-> (want, prefix) ; want = ('accept',) | ('UnexpectedToken', type, pos) | ('UnexpectedCharacters', pos) | ('end',)
+    Tokens come from the reference lexer (documented order + keyword exception; for the contextual lexer restricted to the
+    terminals the reference automaton accepts next), viability from the CFG fix-point."""
+    g, ref, tdefs = _Kw.g, _Kw.ref, _Kw.tdefs
+
+    def allowed(toks_so_far):
+        s = ref.sim()
+        for typ, _, _ in toks_so_far:
+            if s.feed(('tok', typ)) != 'shift':
+                return set()
+        return {k[1] for k in s.terminals() if k != reflalr.END and k[0] == 'tok'}
+    lx = reflex.lex_basic(tdefs, ('WS',), w, allowed=allowed if lexer == 'contextual' else None)
+    toks = lx[1] if lx[0] == 'ok' else lx[2]
+    prefix = []
+    for typ, val, pos in toks:
+        if not refsem.viable_tokens(g, [('tok', t) for t in prefix] + [('tok', typ)]):
+            return ('UnexpectedToken', typ, pos), prefix
+        prefix.append(typ)
+    if lx[0] != 'ok':
+        q = lx[1]
+        if lexer == 'contextual':
+            # no acceptable terminal matches at q: the root lexer is asked, and a terminal defined but not acceptable here is
+            # reported as an unexpected token
+            root = reflex.lex_basic(tdefs, ('WS',), w[q:])
+            rt = root[1] if root[0] == 'ok' else root[2]
+            if rt and rt[0][2] == 0:
+                return ('UnexpectedToken', rt[0][0], q), prefix
+        return ('UnexpectedCharacters', q), prefix
+    E = refsem.Edges.tokens(g, [('tok', t) for t in prefix])
+    return (('accept',) if refsem.Chart(g, E).accepts() else ('end',)), prefix
+
+
+def work_kw(item, only=None):
+    from ..famrun import new_res
+    res = new_res()
+    _, L, lo, hi = item
+    _Kw.setup()
+    g = _Kw.g
+    import itertools
+    texts = [only['input']] if only else itertools.islice(util.strings(KW_ALPHA, L), lo, hi)
+    for w in texts:
+        for (parser, lexer), p in _Kw.parsers.items():
+            if only and (only['parser'], only['lexer']) != (parser, lexer):
+                continue
+            want, prefix = kw_expect(w, lexer)
+            nxt = {t for t in KW_TNAMES if refsem.viable_tokens(g, [('tok', x) for x in prefix] + [('tok', t)])}
+            pr = larkio.parse(p, w)
+            res['evals'] += 1
+            case = {'box': 'keywords', 'item': list(item), 'grammar': KW_G, 'parser': parser, 'lexer': lexer, 'input': w}
+
+            def bad(kind, cause, exp, got):
+                res['viol'].append({'kind': kind, 'cause': cause, 'case': case, 'expected': exp, 'observed': got})
+            if pr[0] == 'hang':
+                bad('hang', 'hang', 'terminates', 'watchdog')
+                continue
+            if pr[0] == 'ok':
+                if want[0] != 'accept':
+                    bad('accepted-non-sentence', 'language', list(want), 'a tree')
+                continue
+            e = pr[1]
+            if want[0] == 'accept':
+                bad('rejected-sentence', 'language', 'a tree', repr(e)[:200])
+                continue
+            if prefix:
+                res['nontrivial'] += 1
+            cls = type(e).__name__
+            if not isinstance(e, UnexpectedInput):
+                bad('error-class', 'error-class', 'UnexpectedInput subclass', '%s: %s' % (cls, str(e)[:150]))
+                continue
+            tok = getattr(e, 'token', None)
+            if want[0] == 'end':
+                if not (cls == 'UnexpectedEOF' or (cls == 'UnexpectedToken' and tok.type == '$END')):
+                    bad('position', 'position', 'UnexpectedEOF / unexpected $END', obs.exc(e))
+                    continue
+            elif want[0] == 'UnexpectedToken':
+                if (cls, getattr(tok, 'type', None), getattr(tok, 'start_pos', None)) != want:
+                    bad('position', 'position', list(want), [cls, getattr(tok, 'type', None), getattr(tok, 'start_pos', None), getattr(e, 'pos_in_stream', None)])
+                    continue
+            else:
+                if (cls, getattr(e, 'pos_in_stream', None)) != want:
+                    bad('position', 'position', list(want), [cls, getattr(e, 'pos_in_stream', None)])
+                    continue
+            # continuation sets, in the stated directions
+            names = lambda v: {str(x) for x in (v or ()) if str(x) in KW_TNAMES}
+            if parser == 'earley':
+                got = names(getattr(e, 'allowed', None) if cls == 'UnexpectedCharacters' else getattr(e, 'expected', None))
+                if cls != 'UnexpectedEOF' and not nxt <= got:
+                    bad('continuation-set', 'expected-earley-basic', 'superset of %s' % sorted(nxt), sorted(got))
+            elif cls == 'UnexpectedToken':
+                acc = util.timed(lambda: e.accepts, 5)
+                if acc[0] != 'ok' or acc[1] is None:
+                    bad('accepts-unavailable', 'accepts', 'a set', repr(acc)[:100])
+                    continue
+                accs, exps = names(acc[1]), names(e.expected)
+                if not accs <= exps:
+                    bad('continuation-set', 'accepts-subset-expected', 'accepts subset of expected=%s' % sorted(exps), sorted(accs))
+                if not accs <= nxt:
+                    bad('continuation-set', 'accepts-viable', 'accepts within the legal next terminals %s' % sorted(nxt), sorted(accs))
+            if len(res['samples']) < 1 and len(prefix) >= 2:
+                res['samples'].append({'grammar': 'keyword box', 'engine': parser + '/' + lexer, 'input': w, 'error': obs.exc(e)})
+    res['counters'] = dict(res['counters'])
+    return res
+
+
+KW_TIERS = {'quick': 5, 'thorough': 6}
+KW_CHUNK = 800
+
 IND_TIERS = {'quick': 3, 'thorough': 4}
 IND_CHUNK = 1500
 
@@ -394,22 +528,30 @@ _run = FamRun(box, TIERS, check, chunk=48)
 def plan(tier, seed):
     n = IND_TIERS[tier]
     total = sum(2 * (len(IND_INDENTS) * len(IND_BODIES)) ** k for k in range(1, n + 1))
-    return [('fam',) + tuple(it) for it in _run.plan(tier, seed)] + [('indent', n, lo, min(total, lo + IND_CHUNK)) for lo in range(0, total, IND_CHUNK)]
+    kl = KW_TIERS[tier]
+    ktotal = sum(len(KW_ALPHA) ** k for k in range(kl + 1))
+    return [('fam',) + tuple(it) for it in _run.plan(tier, seed)] + [('indent', n, lo, min(total, lo + IND_CHUNK)) for lo in range(0, total, IND_CHUNK)] + \
+        [('kw', kl, lo, min(ktotal, lo + KW_CHUNK)) for lo in range(0, ktotal, KW_CHUNK)]
 
 
 def bounds(tier, seed):
     return {'families': _run.bounds(tier, seed),
             'indenter_box': {'grammar': IND_G, 'lines': '<= %d, each one of %d indentations x %d bodies, with and without a final newline' % (IND_TIERS[tier], len(IND_INDENTS), len(IND_BODIES)),
-                             'engines': IND_ENGINES}}
+                             'engines': IND_ENGINES},
+            'keyword_box': {'grammar': KW_G, 'input_alphabet': KW_ALPHA, 'max_input_len': KW_TIERS[tier], 'engines': KW_ENGINES}}
 
 
 def work(item):
     if item[0] == 'indent':
         return work_indent(item)
+    if item[0] == 'kw':
+        return work_kw(item)
     return _run.work(item[1:])
 
 
 def replay(case):
     if case.get('box') == 'indenter':
         return work_indent(tuple(case['item']), only=case)['viol']
+    if case.get('box') == 'keywords':
+        return work_kw(tuple(case['item']), only=case)['viol']
     return _run.replay(case)
